@@ -1,0 +1,201 @@
+//go:build verif
+
+package disk
+
+// Contracts for the gvc verifier (/verif). Comment-only: this file adds no
+// code. Syntax: /verif/DESIGN.md §2.2.
+//
+// Kernel ghost state (trusted model of the file system the FileDisk sits on):
+//   kdent  path -> inode (0: no such file)      kreg   inode is a regular file
+//   kdata  inode -> offset -> byte (volatile)   ksize  inode -> size in bytes
+//   kddata / kdsize: the durable copies that survive a crash
+//   fopen  fd is open     fino  fd -> inode
+// Lock ghost state: held_w / held_r, keyed by the reference of the mutex.
+
+//@ ghost var kdent map[string]Int
+//@ ghost var kreg map[Int]bool
+//@ ghost var kdata map[Int]map[int64]byte
+//@ ghost var ksize map[Int]int64
+//@ ghost var kddata map[Int]map[int64]byte
+//@ ghost var kdsize map[Int]int64
+//@ ghost var fopen map[int]bool
+//@ ghost var fino map[int]Int
+//@ ghost var held_w map[Int]bool
+//@ ghost var held_r map[Int]bool
+
+// ---- assumed contracts (trusted; POSIX as documented, each call atomic, one owner of the file) ----
+
+//@ assume func (*sync.RWMutex).Lock (rw)
+//@   requires !held_w[ref(rw)] && !held_r[ref(rw)]
+//@   modifies held_w
+//@   ensures held_w == old(held_w)[ref(rw) := true]
+//@ assume func (*sync.RWMutex).Unlock (rw)
+//@   requires held_w[ref(rw)]
+//@   modifies held_w
+//@   ensures held_w == old(held_w)[ref(rw) := false]
+//@ assume func (*sync.RWMutex).RLock (rw)
+//@   requires !held_w[ref(rw)] && !held_r[ref(rw)]
+//@   modifies held_r
+//@   ensures held_r == old(held_r)[ref(rw) := true]
+//@ assume func (*sync.RWMutex).RUnlock (rw)
+//@   requires held_r[ref(rw)]
+//@   modifies held_r
+//@   ensures held_r == old(held_r)[ref(rw) := false]
+
+//@ assume func golang.org/x/sys/unix.Open (path, mode, perm)
+//@   modifies kdent, kreg, kdata, ksize, kddata, kdsize, fopen, fino
+//@   ensures result.1 != nil ==> kdent == old(kdent) && kreg == old(kreg) && kdata == old(kdata) && ksize == old(ksize) && kddata == old(kddata) && kdsize == old(kdsize) && fopen == old(fopen) && fino == old(fino)
+//@   ensures result.1 == nil ==> !old(fopen)[result.0] && fopen == old(fopen)[result.0 := true] && fino == old(fino)[result.0 := kdent[path]] && kdent[path] != 0
+//@   ensures result.1 == nil && old(kdent)[path] != 0 ==> kdent == old(kdent) && kreg == old(kreg) && kdata == old(kdata) && ksize == old(ksize) && kddata == old(kddata) && kdsize == old(kdsize)
+//@   ensures result.1 == nil && old(kdent)[path] == 0 ==> mode & unix.O_CREAT != 0 && kdent == old(kdent)[path := kdent[path]] && kreg == old(kreg)[kdent[path] := true] && ksize == old(ksize)[kdent[path] := 0] && kdsize == old(kdsize)[kdent[path] := 0] && kdata == old(kdata) && kddata == old(kddata)
+//@   ensures result.1 == nil && old(kdent)[path] == 0 ==> forall q string :: old(kdent)[q] != kdent[path]
+//@   ensures result.1 == nil && old(kdent)[path] == 0 ==> forall f int :: old(fopen)[f] ==> old(fino)[f] != kdent[path]
+
+//@ assume func golang.org/x/sys/unix.Fstat (fd, stat)
+//@   requires fopen[fd]
+//@   modifies cell(stat)
+//@   ensures result == nil ==> stat.Size == ksize[fino[fd]] && ((stat.Mode & 0x8000 != 0) <==> kreg[fino[fd]])
+
+//@ assume func golang.org/x/sys/unix.Ftruncate (fd, length)
+//@   requires fopen[fd]
+//@   modifies kdata, ksize
+//@   ensures result != nil ==> kdata == old(kdata) && ksize == old(ksize)
+//@   ensures result == nil ==> length >= 0 && ksize == old(ksize)[fino[fd] := length]
+//@   ensures result == nil ==> forall i Int :: i != fino[fd] ==> kdata[i] == old(kdata)[i]
+//@   ensures result == nil ==> forall k int64 :: 0 <= k && k < length ==> kdata[fino[fd]][k] == (k < old(ksize)[fino[fd]] ? old(kdata)[fino[fd]][k] : 0)
+
+//@ assume func golang.org/x/sys/unix.Pread (fd, p, offset)
+//@   requires fopen[fd]
+//@   modifies p
+//@   ensures result.1 == nil ==> offset >= 0 && 0 <= result.0 && result.0 <= len(p)
+//@   ensures result.1 == nil && kreg[fino[fd]] ==> int64(result.0) == min(int64(len(p)), max(0, ksize[fino[fd]] - offset))
+//@   ensures result.1 == nil ==> forall i int :: 0 <= i && i < result.0 ==> p[i] == kdata[fino[fd]][offset + int64(i)]
+//@   ensures forall i int :: 0 <= i && i < len(p) && (result.1 != nil || i >= result.0) ==> p[i] == old(p[i])
+
+//@ assume func golang.org/x/sys/unix.Pwrite (fd, p, offset)
+//@   requires fopen[fd]
+//@   modifies kdata, ksize
+//@   ensures result.1 != nil ==> kdata == old(kdata) && ksize == old(ksize)
+//@   ensures result.1 == nil ==> offset >= 0 && 0 <= result.0 && result.0 <= len(p)
+//@   ensures result.1 == nil ==> ksize == old(ksize)[fino[fd] := max(old(ksize)[fino[fd]], offset + int64(result.0))]
+//@   ensures result.1 == nil ==> forall i Int :: i != fino[fd] ==> kdata[i] == old(kdata)[i]
+//@   ensures result.1 == nil ==> forall k int64 :: kdata[fino[fd]][k] == (offset <= k && k < offset + int64(result.0) ? p[int(k - offset)] : old(kdata)[fino[fd]][k])
+
+//@ assume func golang.org/x/sys/unix.Fsync (fd)
+//@   requires fopen[fd]
+//@   modifies kddata, kdsize
+//@   ensures result == nil ==> kddata == old(kddata)[fino[fd] := kdata[fino[fd]]] && kdsize == old(kdsize)[fino[fd] := ksize[fino[fd]]]
+
+//@ assume func golang.org/x/sys/unix.Close (fd)
+//@   modifies fopen
+//@   ensures result == nil ==> fopen == old(fopen)[fd := false]
+//@   ensures result != nil ==> fopen == old(fopen)
+
+// ---- MemDisk: view(d)[b][i] = at(d.blocks, b, i), size = len(d.blocks) -------------------------
+
+//@ props C09 C10
+
+//@ func NewMemDisk
+//@   requires numBlocks < 0x1000000000
+//@   ensures [requested size] uint64(len(result.blocks)) == numBlocks
+//@   ensures [all blocks zero] forall b uint64, i uint64 :: b < numBlocks && i < 4096 ==> at(result.blocks, b, i) == 0
+//@   ensures [fresh storage and lock] fresh(result.blocks) && fresh(result.l) && result.l != nil
+//@   ensures [lock free] !held_w[ref(result.l)] && !held_r[ref(result.l)]
+//@   requires forall r Int :: r >= brk ==> !held_w[r] && !held_r[r]
+
+//@ func (MemDisk).ReadTo
+//@   requires d.l != nil && !held_w[ref(d.l)] && !held_r[ref(d.l)]
+//@   requires [caller memory is not disk storage] buf.arr != d.blocks.arr
+//@   requires len(buf) == 4096
+//@   lock d.l
+//@   unguarded buf
+//@   panics_iff [out-of-range address refused] a >= uint64(len(d.blocks))
+//@   on_panic [nothing changed, lock released] unchanged()
+//@   ensures [buffer holds the block] forall i uint64 :: i < 4096 ==> buf[i] == old(at(d.blocks, a, i))
+//@   ensures [lock released] held_w == old(held_w) && held_r == old(held_r)
+//@   modifies buf, held_r
+
+//@ func (MemDisk).Read
+//@   requires d.l != nil && !held_w[ref(d.l)] && !held_r[ref(d.l)]
+//@   panics_iff [out-of-range address refused] a >= uint64(len(d.blocks))
+//@   on_panic [nothing changed] unchanged()
+//@   ensures [one fresh block] len(result) == 4096 && fresh(result)
+//@   ensures [holds the block] forall i uint64 :: i < 4096 ==> result[i] == old(at(d.blocks, a, i))
+//@   ensures [lock released] held_w == old(held_w) && held_r == old(held_r)
+//@   modifies held_r
+
+//@ func (MemDisk).Write
+//@   requires d.l != nil && !held_w[ref(d.l)] && !held_r[ref(d.l)]
+//@   requires [caller memory is not disk storage] v.arr != d.blocks.arr
+//@   lock d.l
+//@   unguarded v
+//@   panics_iff [wrong-sized buffer or out-of-range address refused] len(v) != 4096 || a >= uint64(len(d.blocks))
+//@   on_panic [nothing changed, lock released] unchanged()
+//@   ensures [block a holds v, every other block untouched] forall b uint64, i uint64 :: b < uint64(len(d.blocks)) && i < 4096 ==> at(d.blocks, b, i) == (b == a ? v[i] : old(at(d.blocks, b, i)))
+//@   ensures [lock released] held_w == old(held_w) && held_r == old(held_r)
+//@   modifies elems(d.blocks), held_w
+
+//@ func (MemDisk).Size
+//@   lock d.l
+//@   ensures [number of blocks] result == uint64(len(d.blocks))
+
+//@ func (MemDisk).Barrier
+//@ func (MemDisk).Close
+
+// ---- FileDisk: view(d)[b][i] = kdata[fino[d.fd]][b*4096+i], size = d.numBlocks -----------------
+
+//@ ghost func finv(d FileDisk) bool = fopen[d.fd] && d.numBlocks <= 0x7ffffffffffff && (kreg[fino[d.fd]] ==> ksize[fino[d.fd]] == int64(d.numBlocks * 4096))
+//@ ghost func fbyte(d FileDisk, b uint64, i uint64) byte = kdata[fino[d.fd]][int64(b * 4096 + i)]
+
+//@ props C09 C11
+
+//@ func NewFileDisk
+//@   requires [size fits a file offset] numBlocks <= 0x7ffffffffffff
+//@   may_panic
+//@   ensures [errors are returned] result.1 == nil ==> fopen[result.0.fd] && result.0.numBlocks == numBlocks && fino[result.0.fd] == kdent[path] && kdent[path] != 0
+//@   ensures [existing file keeps its inode] result.1 == nil && old(kdent)[path] != 0 ==> kdent[path] == old(kdent)[path]
+//@   ensures [exact size] result.1 == nil && kreg[kdent[path]] ==> ksize[kdent[path]] == int64(numBlocks * 4096)
+//@   ensures [retained prefix preserved] result.1 == nil && kreg[kdent[path]] && old(kdent)[path] != 0 ==> forall k int64 :: 0 <= k && k < old(ksize)[kdent[path]] && k < int64(numBlocks * 4096) ==> kdata[kdent[path]][k] == old(kdata)[kdent[path]][k]
+//@   ensures [new blocks read as zero] result.1 == nil && kreg[kdent[path]] && old(kdent)[path] != 0 ==> forall k int64 :: old(ksize)[kdent[path]] <= k && k < int64(numBlocks * 4096) ==> kdata[kdent[path]][k] == 0
+//@   ensures [new file reads as zero] result.1 == nil && old(kdent)[path] == 0 ==> forall k int64 :: 0 <= k && k < int64(numBlocks * 4096) ==> kdata[kdent[path]][k] == 0
+//@   ensures [other files untouched] forall i Int :: i != kdent[path] ==> kdata[i] == old(kdata)[i] && ksize[i] == old(ksize)[i]
+//@   modifies kdent, kreg, kdata, ksize, kddata, kdsize, fopen, fino
+
+//@ func (FileDisk).ReadTo
+//@   requires finv(d)
+//@   may_panic
+//@   panics_if [wrong-sized buffer or out-of-range address refused] len(buf) != 4096 || a >= d.numBlocks
+//@   ensures [buffer holds the block] kreg[fino[d.fd]] ==> forall i uint64 :: i < 4096 ==> buf[i] == fbyte(d, a, i)
+//@   modifies buf
+
+//@ func (FileDisk).Read
+//@   requires finv(d)
+//@   may_panic
+//@   panics_if [out-of-range address refused] a >= d.numBlocks
+//@   ensures [one fresh block] len(result) == 4096 && fresh(result)
+//@   ensures [holds the block] kreg[fino[d.fd]] ==> forall i uint64 :: i < 4096 ==> result[i] == fbyte(d, a, i)
+
+//@ func (FileDisk).Write
+//@   requires finv(d)
+//@   may_panic
+//@   panics_if [wrong-sized buffer or out-of-range address refused] len(v) != 4096 || a >= d.numBlocks
+//@   on_panic [refusal changes nothing] len(v) != 4096 || a >= d.numBlocks ==> unchanged()
+//@   ensures [block a holds v, every other byte untouched] forall b uint64, i uint64 :: b < d.numBlocks && i < 4096 ==> fbyte(d, b, i) == (b == a ? v[i] : old(fbyte(d, b, i)))
+//@   ensures [size unchanged] finv(d)
+//@   ensures [other files untouched] forall i Int :: i != fino[d.fd] ==> kdata[i] == old(kdata)[i] && ksize[i] == old(ksize)[i]
+//@   modifies kdata, ksize
+
+//@ func (FileDisk).Size
+//@   ensures [number of blocks] result == d.numBlocks
+
+//@ func (FileDisk).Barrier
+//@   requires finv(d)
+//@   may_panic
+//@   ensures [durable copy equals contents] kddata[fino[d.fd]] == kdata[fino[d.fd]] && kdsize[fino[d.fd]] == ksize[fino[d.fd]]
+//@   modifies kddata, kdsize
+
+//@ func (FileDisk).Close
+//@   requires fopen[d.fd]
+//@   may_panic
+//@   ensures [descriptor released] !fopen[d.fd]
+//@   modifies fopen
